@@ -105,6 +105,8 @@ def run(res, replay=None):
             ("sql-clients+deletes+DDL", ["c12", "-", "{D}", "16", "80", "3", "3", str(s + 1), "2", "120"], {"VERIF_C12_MIX": "1", "GOMAXPROCS": "16"}),
             ("explicit transactions aborted on purpose next to scanners", ["c19x", "-", "{D}", "4", "4", "80", str(s)], {"GOMAXPROCS": "8"}),
             ("explicit transactions aborted on purpose next to scanners", ["c19x", "-", "{D}", "8", "6", "40", str(s + 7)], {"GOMAXPROCS": "16"}),
+            ("explicit transactions aborted on purpose next to scanners", ["c19x", "-", "{D}", "4", "4", "80", str(s + 11)], {"GOMAXPROCS": "4"}),
+            ("explicit transactions aborted on purpose next to scanners", ["c19x", "-", "{D}", "8", "6", "40", str(s + 13)], {"GOMAXPROCS": "8"}),
             ("skip-list index", ["c17c", "-", "{D}", "s", "4", "4", "1500", str(s), "120"], {}),
             ("b-tree index", ["c17c", "-", "{D}", "b", "4", "4", "1500", str(s), "120"], {}),
         ]
